@@ -1,0 +1,34 @@
+//go:build verif
+
+// Contracts for package batching, checked by /verif (govc). Comment-only.
+package batching
+
+//@ type EventBatcher
+//@   guards mu: batch, batchToken
+//@   lockinv mu: self.batchToken >= 0
+
+// Every method of EventBatcher holds mu for its whole body, so each contract is
+// an atomic transition of (batch, batchToken); old(...) of a guarded field is its
+// value when the lock was acquired.
+
+//@ func EventBatcher.Add
+//@   property C20 C04
+//@   modifies b.batch
+//@   ensures len(b.batch) == old(len(b.batch)) + 1 && b.batch[old(len(b.batch))] == event
+//@   ensures forall(0, old(len(b.batch)), func(j int) bool { return b.batch[j] == old(b.batch[j]) })
+//@   ensures b.batchToken == old(b.batchToken)
+
+//@ func EventBatcher.IsFull
+//@   property C20 C04
+//@   modifies nothing
+//@   ensures result == (len(b.batch) >= b.maxSize)
+
+//@ func EventBatcher.Flush
+//@   property C20 C04
+//@   modifies b.batch, b.batchToken
+//@   ensures (old(len(b.batch)) == 0 || (token != CurrentBatch && old(b.batchToken) != token)) ==>
+//@           len(result) == 0 && b.batchToken == old(b.batchToken) && len(b.batch) == old(len(b.batch)) &&
+//@           forall(0, len(b.batch), func(j int) bool { return b.batch[j] == old(b.batch[j]) })
+//@   ensures !(old(len(b.batch)) == 0 || (token != CurrentBatch && old(b.batchToken) != token)) ==>
+//@           len(result) == old(len(b.batch)) && len(b.batch) == 0 && b.batchToken == old(b.batchToken) + 1 &&
+//@           forall(0, len(result), func(j int) bool { return result[j] == old(b.batch[j]) })
